@@ -21,32 +21,6 @@ def splitSections (p : String) : List String :=
     | [_, m] => m
     | _ => sec
 
-/-- `EvalCommon.decodeInterp` splits an entry at EVERY '=' and so rejects embedded code whose tree has a node named
-    `:=`, `==`, `>=` …; here the entry is split at the first '=' only (the code part is hex) -/
-def decodeInterp' (s : String) : Option (List Nat × InterpEntry) :=
-  match s.splitOn "=" with
-  | code :: r1 :: more => do
-    let rest := "=".intercalate (r1 :: more)
-    let code ← hexDecode code
-    if rest.startsWith "#" then
-      let r ← hexDecode (rest.drop 1).toString
-      some (code, .text r)
-    else
-      let n ← decodeAst rest
-      some (code, .ast n)
-  | _ => none
-
-def decodePayload' (p : String) : Option Program :=
-  match p.splitOn " " with
-  | src :: ast :: entries => do
-    let src ← hexDecode src
-    let tab ← entries.mapM decodeInterp'
-    if ast == "!" then some { src := src, ast := none, interp := tab }
-    else
-      let n ← decodeAst ast
-      some { src := src, ast := some n, interp := tab }
-  | _ => none
-
 def errText : Sig → String
   | .err e _ => s!"ERR {hexEnc (strBytes e.type)}"
   | .ret e _ => s!"ERR {hexEnc (strBytes e.type)}"
@@ -78,7 +52,7 @@ def canonErrObjects (t : String) : String :=
     "s736f75726365:?source name" "s736f75726365:~S").replace "s7472616365:?trace" "s7472616365:~T").replace "?int" "~I"
 
 def runCase (payload : String) : String :=
-  match (splitSections payload).mapM decodePayload' with
+  match (splitSections payload).mapM decodePayload with
   | none => "bad-payload"
   | some progs =>
     let m : M (Nat × List String) := do
